@@ -63,6 +63,47 @@ Theorem from_str_both : forall n,
 Proof. exact (fun n => conj (from_str_canonical n) (conj (from_str_short n) from_str_reject)). Qed.
 Print Assumptions from_str_both.
 
+(* ---- sequences of calls in one process (eval_seq: the calls one after another).
+   The result of a call is the result of that call alone, whatever was called
+   before or after it ... *)
+Theorem calls_independent : forall pre c post,
+  nth_error (eval_seq (pre ++ c :: post)) (length pre) = Some (eval_call c).
+Proof. exact calls_independent_l. Qed.
+Print Assumptions calls_independent.
+
+(* ... so at every position of every history a decoding call (uuid_from_short_str,
+   or uuid_from_str of a string uuid.UUID does not take) returns the value of ITS
+   string when that is a valid short string and raises ValueError otherwise ... *)
+Theorem seq_decode_exact : forall l i c s,
+  nth_error l i = Some c -> (c = CFromShort (PStr s) \/ c = CFromStr None s) ->
+  ((length s = short_len /\ Forall (fun c => In c alphabet) s /\ value s < 2 ^ 128) ->
+     nth_error (eval_seq l) i = Some (ORes (Ok (value s)))) /\
+  (~ (length s = short_len /\ Forall (fun c => In c alphabet) s /\ value s < 2 ^ 128) ->
+     nth_error (eval_seq l) i = Some (ORes (Err ValueErr))).
+Proof. exact (fun l i c s H D => conj (seq_decode_valid l i c s H D) (seq_decode_invalid l i c s H D)). Qed.
+Print Assumptions seq_decode_exact.
+
+(* ... two decoding calls of one history that return the same uuid were given the
+   same string (strings differing only in letter case never share a result) ... *)
+Theorem seq_decode_injective : forall l i j ci cj si sj n,
+  nth_error l i = Some ci -> nth_error l j = Some cj ->
+  (ci = CFromShort (PStr si) \/ ci = CFromStr None si) ->
+  (cj = CFromShort (PStr sj) \/ cj = CFromStr None sj) ->
+  nth_error (eval_seq l) i = Some (ORes (Ok n)) -> nth_error (eval_seq l) j = Some (ORes (Ok n)) ->
+  si = sj.
+Proof. exact seq_decode_injective. Qed.
+Print Assumptions seq_decode_injective.
+
+(* ... and an encoding call returns the encoding, which every decoding call of the
+   same history (earlier or later) takes back to the uuid *)
+Theorem seq_encode_decode : forall l i u, nth_error l i = Some (CToShort u) -> 0 <= u < 2 ^ 128 ->
+  nth_error (eval_seq l) i = Some (OStr (uuid_to_short_str u)) /\
+  forall j c, nth_error l j = Some c ->
+    (c = CFromShort (PStr (uuid_to_short_str u)) \/ c = CFromStr None (uuid_to_short_str u)) ->
+    nth_error (eval_seq l) j = Some (ORes (Ok u)).
+Proof. exact seq_encode. Qed.
+Print Assumptions seq_encode_decode.
+
 (* non-vacuity: concrete values meet the hypotheses and exercise both branches *)
 Example roundtrip_max : uuid_from_short_str (PStr (uuid_to_short_str (2 ^ 128 - 1))) = Ok (2 ^ 128 - 1).
 Proof. vm_compute. reflexivity. Qed.
@@ -74,3 +115,15 @@ Example reject_foreign_char :
   uuid_from_short_str (PStr (repeat 50 21)) = Err ValueErr.            (* too short *)
 Proof. vm_compute. repeat split. Qed.
 Print Assumptions reject_foreign_char.
+
+(* a history of the kind the sequence theorems speak about: 'H' + 'a'*21 and
+   'h' + 'a'*21 differ only in letter case, both are valid and denote different
+   uuids; 'l' + 'a'*21 is invalid ('l' is not a letter of the alphabet) *)
+Example seq_case_variants :
+  let big := 72 :: repeat 97 21 in let small := 104 :: repeat 97 21 in let bad := 108 :: repeat 97 21 in
+  match eval_seq [CFromStr None big; CFromStr None small; CFromShort (PStr bad); CFromStr None big] with
+  | [ORes (Ok a); ORes (Ok b); ORes (Err ValueErr); ORes (Ok a')] => a <> b /\ a = a'
+  | _ => False
+  end.
+Proof. vm_compute. split; [discriminate|reflexivity]. Qed.
+Print Assumptions seq_case_variants.
